@@ -458,9 +458,14 @@ func (b *slowRtCircuitBreaker) OnRequestComplete(rt uint64, _ error) {
 	return
 }
 
+// resetMetric clears every bucket of the statistic, not only those of the window that ends now: after the
+// clock was set back the failures of a moment ago lie in a bucket that starts in the future, and a closing
+// that left them there was followed by an opening on the spot - on failures that had been answered already.
 func (b *slowRtCircuitBreaker) resetMetric() {
-	for _, c := range b.stat.allCounter() {
-		c.reset()
+	for _, bw := range b.stat.data.AllBuckets() {
+		if c, ok := bw.Value.Load().(*slowRequestCounter); ok && c != nil {
+			c.reset()
+		}
 	}
 }
 
@@ -654,8 +659,11 @@ func (b *errorRatioCircuitBreaker) OnRequestComplete(_ uint64, err error) {
 }
 
 func (b *errorRatioCircuitBreaker) resetMetric() {
-	for _, c := range b.stat.allCounter() {
-		c.reset()
+	// (every bucket, see slowRtCircuitBreaker.resetMetric)
+	for _, bw := range b.stat.data.AllBuckets() {
+		if c, ok := bw.Value.Load().(*errorCounter); ok && c != nil {
+			c.reset()
+		}
 	}
 }
 
@@ -846,7 +854,10 @@ func (b *errorCountCircuitBreaker) OnRequestComplete(_ uint64, err error) {
 }
 
 func (b *errorCountCircuitBreaker) resetMetric() {
-	for _, c := range b.stat.allCounter() {
-		c.reset()
+	// (every bucket, see slowRtCircuitBreaker.resetMetric)
+	for _, bw := range b.stat.data.AllBuckets() {
+		if c, ok := bw.Value.Load().(*errorCounter); ok && c != nil {
+			c.reset()
+		}
 	}
 }
